@@ -217,6 +217,48 @@ def _all_names(fn_node) -> Set[str]:
     return out
 
 
+def _helper_as_expression(body: List[ast.stmt], boolean_context: bool) -> Optional[ast.AST]:
+    """A helper made of guard clauses and returns only (``if c: return False`` ... ``return e``) as one expression:
+    ``if c: return False; rest`` -> ``(not c) and rest``; ``if c: return True; rest`` -> ``c or rest`` (boolean contexts);
+    otherwise ``v if c else rest``.  None when the body does anything else."""
+    if not body:
+        return None
+    s0 = body[0]
+    if isinstance(s0, ast.Return):
+        return copy.deepcopy(s0.value) if s0.value is not None else ast.Constant(value=None)
+    if isinstance(s0, ast.If):
+        if s0.orelse:
+            a, b = _helper_as_expression(s0.body, boolean_context), _helper_as_expression(s0.orelse, boolean_context)
+            if a is None or b is None or len(body) > 1:
+                return None
+            return ast.IfExp(test=copy.deepcopy(s0.test), body=a, orelse=b)
+        if len(s0.body) != 1 or not isinstance(s0.body[0], ast.Return):
+            return None
+        rest = _helper_as_expression(body[1:], boolean_context)
+        if rest is None:
+            return None
+        v = s0.body[0].value
+        if isinstance(v, ast.Constant) and v.value is False:
+            return ast.BoolOp(op=ast.And(), values=[ast.UnaryOp(op=ast.Not(), operand=copy.deepcopy(s0.test)), rest])
+        if isinstance(v, ast.Constant) and v.value is True and boolean_context:
+            return ast.BoolOp(op=ast.Or(), values=[copy.deepcopy(s0.test), rest])
+        return ast.IfExp(test=copy.deepcopy(s0.test), body=copy.deepcopy(v) if v is not None else ast.Constant(value=None), orelse=rest)
+    return None
+
+
+def _test_context(prog: Program, call: ast.Call):
+    """the While / If whose test contains the call with only boolean operators in between, else None"""
+    child = call
+    for p in prog.ancestors(call):
+        if isinstance(p, (ast.BoolOp,)) or (isinstance(p, ast.UnaryOp) and isinstance(p.op, ast.Not)):
+            child = p
+            continue
+        if isinstance(p, (ast.While, ast.If)) and p.test is child:
+            return p
+        return None
+    return None
+
+
 def _stmt_context(prog: Program, call: ast.Call):
     """-> (statement, kind) where kind in {'assign', 'expr', 'temp', 'iftest'} or None if the call cannot be hoisted."""
     child = call
@@ -375,6 +417,15 @@ def _candidates(prog: Program):
                 ok = False
                 break
             sc = _stmt_context(prog, call)
+            if sc is None:
+                # a predicate helper in a loop / branch condition: substituted as an expression
+                tc = _test_context(prog, call)
+                from .aggregates import _same_object_each_time
+
+                if tc is not None and _helper_as_expression(body, True) is not None and all(
+                        _same_object_each_time(a_) for a_ in list(call.args) + [k_.value for k_ in call.keywords]):
+                    ctxs.append((tc, "exprsubst"))
+                    continue
             if sc is None or _block_of(prog, sc[0]) is None:
                 ok = False
                 break
@@ -437,6 +488,45 @@ def _may_rebind_attrs(prog: Program, f: FunctionInfo, names: Set[str]) -> bool:
             elif not tg and isinstance(call.func, ast.Name):
                 stack.extend(by_name.get(call.func.id, []))
     return False
+
+
+def _substitute_expression(f: FunctionInfo, body, call: ast.Call, holder, is_static: bool):
+    """replace ``call`` inside ``holder.test`` by the helper's body written as an expression (arguments for parameters)"""
+    expr = _helper_as_expression(body, True)
+    params = [a.arg for a in f.node.args.args] + [a.arg for a in f.node.args.kwonlyargs]
+    bound = bind_args(f, call)
+    subst: Dict[str, ast.AST] = {}
+    is_method = f.cls is not None and not is_static and params and params[0] == "self"
+    for p in params:
+        if is_method and p == "self":
+            recv = call.func.value if isinstance(call.func, ast.Attribute) else None
+            if recv is not None and not (isinstance(recv, ast.Name) and recv.id == "self"):
+                subst["self"] = recv
+            continue
+        arg = bound.get(p)
+        if arg is None:
+            from .model import param_default
+
+            arg = param_default(f, p)
+        if arg is None:
+            raise AnalysisError(f"cannot bind parameter {p} of {f.qualname}")
+        subst[p] = arg
+    expr = _Renamer({}, subst).visit(expr)
+    origin = (f.module.relpath, f.qualname)
+    for n in ast.walk(expr):
+        if not hasattr(n, "_inl"):
+            n._inl = origin
+        if isinstance(n, (ast.expr,)) and not hasattr(n, "lineno"):
+            n.lineno, n.col_offset = call.lineno, call.col_offset
+
+    class R(ast.NodeTransformer):
+        def visit_Call(self, node):
+            if node is call:
+                return ast.copy_location(expr, node)
+            return self.generic_visit(node)
+
+    holder.test = R().visit(holder.test)
+    ast.fix_missing_locations(holder)
 
 
 def _inline_site(prog: Program, f: FunctionInfo, body, caller: FunctionInfo, call: ast.Call, stmt: ast.stmt, kind: str, is_static: bool, taken: Set[str]):
@@ -874,6 +964,86 @@ def unroll_literal_for_loops(fn_node) -> int:
     return count
 
 
+def counted_loops_to_while(fn_node) -> int:
+    """``for k in range(N): if c: break; ...`` (a counted loop that opens with guard clauses - what a ``while a and b and
+    k < N`` loop looks like after a for-conversion) -> ``k = 0; while k < N and not c: ...; k += 1``.
+    Exact when N and the guards are read-only expressions, the body has no ``continue`` of this loop and no ``else``, and
+    the counter is not read after the loop (its final value differs: N-1 vs N)."""
+    from .aggregates import _read_only
+
+    count = 0
+    for node in ast.walk(fn_node):
+        for fld in ("body", "orelse", "finalbody"):
+            blk = getattr(node, fld, None)
+            if not (isinstance(blk, list) and blk and isinstance(blk[0], ast.stmt)):
+                continue
+            i = 0
+            while i < len(blk):
+                st = blk[i]
+                i += 1
+                if not (isinstance(st, ast.For) and not st.orelse and isinstance(st.target, ast.Name)):
+                    continue
+                it = st.iter
+                if not (isinstance(it, ast.Call) and isinstance(it.func, ast.Name) and it.func.id == "range" and len(it.args) == 1 and not it.keywords and _read_only(it.args[0])):
+                    continue
+                guards = []
+                for b in st.body:
+                    if isinstance(b, ast.If) and not b.orelse and len(b.body) == 1 and isinstance(b.body[0], ast.Break) and _read_only(b.test):
+                        guards.append(b)
+                    else:
+                        break
+                if not guards:
+                    continue
+                var = st.target.id
+                rest = st.body[len(guards):]
+
+                def own_continue(stmts):
+                    for s_ in stmts:
+                        if isinstance(s_, ast.Continue):
+                            return True
+                        if isinstance(s_, (ast.For, ast.While, ast.FunctionDef, ast.Lambda)):
+                            continue
+                        for f2 in ("body", "orelse", "finalbody"):
+                            if own_continue(getattr(s_, f2, []) or []):
+                                return True
+                        if isinstance(s_, ast.Try) and any(own_continue(h.body) for h in s_.handlers):
+                            return True
+                    return False
+
+                if own_continue(rest):
+                    continue
+                if any(isinstance(n, ast.Name) and n.id == var and not isinstance(n.ctx, ast.Load) for s_ in st.body for n in ast.walk(s_)):
+                    continue
+                # counter dead after the loop: no reference positioned after it in the function
+                order, stack_, k_ = {}, [fn_node], 0
+                while stack_:
+                    n_ = stack_.pop()
+                    order[id(n_)] = k_
+                    k_ += 1
+                    stack_.extend(reversed(list(ast.iter_child_nodes(n_))))
+                end = max(order[id(n)] for n in ast.walk(st))
+                if any(isinstance(n, ast.Name) and n.id == var and order[id(n)] > end for n in ast.walk(fn_node)):
+                    continue
+                # the guards may depend on the bound expression's names only by reading: N is re-evaluated per test in the
+                # while form, so it must not change inside the loop
+                nnames = {n.id for n in ast.walk(it.args[0]) if isinstance(n, ast.Name)} - {"self"}
+                if any(isinstance(n, ast.Name) and n.id in nnames and not isinstance(n.ctx, ast.Load) for s_ in st.body for n in ast.walk(s_)):
+                    continue
+                nattrs = {ast.unparse(n) for n in ast.walk(it.args[0]) if isinstance(n, ast.Attribute)}
+                if any(isinstance(n, ast.Attribute) and not isinstance(n.ctx, ast.Load) and ast.unparse(n) in nattrs for s_ in st.body for n in ast.walk(s_)):
+                    continue
+                test_parts = [ast.Compare(left=ast.Name(id=var, ctx=ast.Load()), ops=[ast.Lt()], comparators=[copy.deepcopy(it.args[0])])]
+                test_parts += [ast.UnaryOp(op=ast.Not(), operand=g.test) for g in guards]
+                w = ast.While(test=ast.BoolOp(op=ast.And(), values=test_parts), body=rest + [ast.AugAssign(target=ast.Name(id=var, ctx=ast.Store()), op=ast.Add(), value=ast.Constant(value=1))], orelse=[])
+                init = ast.Assign(targets=[ast.Name(id=var, ctx=ast.Store())], value=ast.Constant(value=0))
+                blk[i - 1:i] = [ast.copy_location(init, st), ast.copy_location(w, st)]
+                i += 1
+                count += 1
+    if count:
+        ast.fix_missing_locations(fn_node)
+    return count
+
+
 def nested_defs_to_lambdas(fn_node) -> int:
     """``def g(x): return e`` nested in a function -> ``g = lambda x: e`` (same closure, same call behaviour)."""
     count = 0
@@ -1101,6 +1271,13 @@ def normalise(prog: Program) -> Tuple[Program, List[str]]:
             for (caller, call), (stmt, kind) in zip(sites, ctxs):
                 # an earlier inlining of this round may have replaced the statement (nested sites f(g(x))): the stale
                 # context is not used, the site is taken up again in the next round on the rebuilt program
+                if kind == "exprsubst":
+                    if not any(n is call for n in ast.walk(stmt.test)):
+                        deferred += 1
+                        continue
+                    _substitute_expression(f, body, call, stmt, is_static)
+                    changed = True
+                    continue
                 if _block_of(prog, stmt) is None or not any(n is call for n in ast.walk(stmt)):
                     deferred += 1
                     continue
@@ -1146,6 +1323,10 @@ def normalise(prog: Program) -> Tuple[Program, List[str]]:
             if nl:
                 changed_alias = True
                 log.append(f"{fn.qualname} ({nl} for-loop(s) over a literal tuple unrolled)")
+            nw = counted_loops_to_while(fn.node)
+            if nw:
+                changed_alias = True
+                log.append(f"{fn.qualname} ({nw} counted loop(s) opening with guard breaks rewritten as while loops)")
             nd = nested_defs_to_lambdas(fn.node)
             if nd:
                 changed_alias = True
